@@ -206,6 +206,13 @@ class ColumnProfile:
             new_profile.most_frequent_counts = (
                 [] if len(combined_map) == 0 else list(combined_map.values())
             )
+        elif profile.count == profile.missing:
+            # the other side holds no values: our list (already copied) stands
+            pass
+        elif self.count == self.missing:
+            # we hold no values: the other side's list is the list
+            new_profile.most_frequent_values = list(profile.most_frequent_values)
+            new_profile.most_frequent_counts = list(profile.most_frequent_counts)
         else:
             new_profile.most_frequent_values = []
             new_profile.most_frequent_counts = []
